@@ -419,7 +419,7 @@ func saveViolation(id, name string, caseJSON []byte, msg string) string {
 	mu.Lock()
 	defer mu.Unlock()
 	savedPerCheck[name]++
-	if savedPerCheck[name] > 3 { // enough examples of this sub-check
+	if savedPerCheck[name] > envInt("VERIF_MAXVIOL", 3) { // enough examples of this sub-check
 		return ""
 	}
 	dir := filepath.Join(outDir, "new-replays")
